@@ -12,10 +12,15 @@ when this table equals the specification's).
                 succeeds, with the cursor restored on every path.
   R-INT-USED    Paragraph.read consults every one of them on every continuation line, ThematicBreak only
                 after the setext-underline test.
+  R-LOOSE-SIGNAL    (tight/loose anchor) trailing blank lines dropped from a nested buffer are handed back to
+                    the cursor, so the enclosing list sees the blank line.
+  R-STRIP-PROVENANCE / R-MARKER-ARITH  (container-reader anchor, shared with C04) quote buffer elements are the
+                    line itself or the line minus its marker; list content offset follows CommonMark 5.2.
 """
 
 import ast
 import itertools
+import re
 
 from .. import blockproto
 from ..domains import AbsStr, Cond, AbsInt, install_rx_hooks, _AbsBound
@@ -257,8 +262,64 @@ def rule_used(ctx, rep):
     rep.floor('R-INT-USED', n, 4)
 
 
+def rule_loose_signal(ctx, rep):
+    """Tight/loose computation: when a container reader drops trailing blank lines from the buffer it
+    re-tokenizes, it must hand one back to the cursor (backstep) so that the enclosing tokenizer sees a
+    blank line between blocks and marks the list loose. Pairing rule over sibling sites."""
+    model = ctx.model
+    rule = 'R-LOOSE-SIGNAL'
+    rep.rule(rule, 'every removal of trailing blank lines from a nested buffer is paired with a cursor backstep')
+    n = 0
+    for cls in blockproto.block_classes(model, ctx.configs()) + [model.cls('block_token.ListItem')]:
+        hit = cls.lookup('read')
+        if hit is None or hit[1].cls is not cls:
+            continue
+        rd = hit[1]
+        for node in walk_function(rd.node):
+            if isinstance(node, ast.Delete) and len(node.targets) == 1 and isinstance(node.targets[0], ast.Subscript) \
+                    and isinstance(node.targets[0].slice, ast.Slice) and node.targets[0].slice.lower is not None \
+                    and isinstance(node.targets[0].slice.lower, ast.UnaryOp) and node.targets[0].slice.upper is None:
+                n += 1
+                rep.instance(rule)
+                seq = None
+                p = node._parent
+                for f in ('body', 'orelse', 'finalbody'):
+                    if isinstance(getattr(p, f, None), list) and node in getattr(p, f):
+                        seq = getattr(p, f)
+                ok = False
+                if seq is not None:
+                    for st in seq:
+                        if st is node:
+                            continue
+                        for c in ast.walk(st):
+                            if isinstance(c, ast.Call) and isinstance(c.func, ast.Attribute) and c.func.attr == 'backstep':
+                                ok = True
+                rep.obligation(rule, ok, {'reader': rd.short, 'site': ast.unparse(node)})
+                if not ok:
+                    rep.find(rule, rd.short, 'trailing-blanks-dropped-without-backstep@%s' % _branch_of(node, rd.node),
+                             '%s removes trailing blank lines from its buffer (%s) without stepping the cursor back: the blank '
+                             'line that separates this block from the next is swallowed and the enclosing list is computed tight'
+                             % (rd.short, ast.unparse(node)), loc(model.unit_of(rd), node))
+    rep.floor(rule, n, 3)
+
+
+def _branch_of(node, fnode):
+    p = node
+    while p is not fnode and p is not None:
+        q = p._parent
+        if isinstance(q, ast.If) and p in q.body:
+            return re.sub(r'\s+', ' ', ast.unparse(q.test))[:50]
+        p = q
+    return 'top'
+
+
 def run(ctx):
     rep = ctx.report
+    rule_loose_signal(ctx, rep)
+    # anchor "container readers strip their own prefix and re-tokenize the remainder": shared with C04
+    from . import c04
+    c04.rule_strip_provenance(ctx, rep)
+    c04.rule_marker_arith(ctx, rep)
     rule_set(ctx, rep)
     rule_cond(ctx, rep)
     rule_used(ctx, rep)
